@@ -3,7 +3,7 @@
 From Coq Require Import List NArith ZArith Lia Bool Permutation.
 From Coq Require Import ZifyN ZifyNat ZifyBool.
 Import ListNotations.
-Require Import V.base.Bytes V.model.Session V.model.Przs.
+Require Import V.base.Bytes V.gen.SessionConsts V.model.Session V.model.Przs.
 Local Open Scope N_scope.
 
 Section PrzsProofs.
